@@ -459,7 +459,9 @@ class Mpo(MatrixProduct):
     def conj_trans(self):
         new_mpo = self.metacopy()
         for i in range(new_mpo.site_num):
-            new_mpo[i] = moveaxis(self[i], (1, 2), (2, 1)).conj()
+            # `np.conj` always returns a new array. The `conj` method of a real array returns the array itself,
+            # and the result would share memory with `self` through the transposed view
+            new_mpo[i] = np.conj(moveaxis(self[i], (1, 2), (2, 1)).array)
         new_mpo.qn = [np.array([-i for i in mt_qn]) for mt_qn in new_mpo.qn]
         new_mpo.qntot = -new_mpo.qntot
         return new_mpo
